@@ -195,6 +195,18 @@ theorem pinned_delete_frees_consumed :
     isUnspentOutpoint (deletePinned st 8).1 7 0 = true ∧ spentInDb (deletePinned st 8).1 7 0 = true := by
   decide
 
+/-- A parent is sent, its change is spent by a child, the parent is deleted and stored again (sent
+again from the object the caller held): the change the stored child consumes is spent from the
+start (repair F117) - an instance of T3 with the figures. -/
+theorem parent_stored_again :
+    let parent : TxBody := { ins := [(7, 0, 1000000)], outs := [(100000, none), (899000, some 2)] }
+    let ops := [Op.newKey 1, Op.newKey 2, Op.newKey 3, Op.utxoAdd 1 1000000 7 0 5,
+      Op.send 8 parent,
+      Op.send 9 { ins := [(8, 1, 899000)], outs := [(200000, none), (698000, some 3)] },
+      Op.delete 8, Op.send 8 parent]
+    isUnspentOutpoint (run init ops) 8 1 = false ∧ total (run init ops) = 698000 := by
+  decide
+
 /-- the hypotheses of T4 are satisfiable: a history with a send that is accepted -/
 example : (send (run init [Op.newKey 1, Op.newKey 2, Op.utxoAdd 1 50000 7 0 3]) 9
     { ins := [(7, 0, 50000)], outs := [(20000, none), (29000, some 2)] }).2 = Status.ok := by decide
